@@ -33,6 +33,7 @@ type scen struct {
 	Ticker      bool          // harness ticker + poller task
 	Interval    time.Duration // real ticker with this interval (virtual time); 0 = polling disabled unless Ticker
 	Latency     time.Duration // every service request takes this long (virtual time)
+	CtxLikeErr  bool          // failures of the service look like a timeout (an error wrapping context.DeadlineExceeded) although no context has ended
 	Outcomes    []string      // service outcomes offered to the explorer per request (nil = always ok)
 	OutcomesFor map[string][]string
 	UseTime     bool
@@ -269,6 +270,8 @@ func (sc *scen) harness(props map[string]bool, out *[]violation) func() *sched.H
 				// from here on the service parks at seams and offers outcomes
 				r.svc.Seams = true
 				r.svc.Latency = sc.Latency
+				r.svc.CtxLikeErr = sc.CtxLikeErr
+				r.svc.MaxReqs = 300
 				r.cache.Seams = true
 				if sc.Outcomes != nil || sc.OutcomesFor != nil {
 					r.svc.Outcomes = func(name string) []string {
@@ -825,7 +828,7 @@ func (r *run) judge() {
 		}
 		for n, c := range calls {
 			if cnt[n] > c {
-				r.fail("C16", "lookup-retried", "%d LookupSecret(%q) calls caused %d requests (no automatic retry is allowed)", c, n, cnt[n])
+				r.fail("C16", "lookup-retried", "%d LookupSecret(%q) calls caused more than %d requests (no automatic retry is allowed)", c, n, c)
 			}
 		}
 	}
